@@ -19,10 +19,10 @@ type timeT = time.Time
 
 // Profile weights the operation alphabet of a case.
 type Profile struct {
-	Send, Recv, RecvDup, Ack, AckDup, Timeout, TimeoutEarly, TimeoutReceived, RecvAfterTimeout int
+	Send, Recv, RecvDup, Ack, AckDup, Timeout, TimeoutEarly, TimeoutReceived, RecvAfterTimeout    int
 	Replay, Mutate, AsyncAck, Commit, Close, OutOfOrder, Redirect, Boundary, SendBoundary, Reopen int
-	SoonPct                                                                                    int // % of sends with a soon-expiring timeout
-	MultiPayloadPct                                                                            int
+	SoonPct                                                                                       int // % of sends with a soon-expiring timeout
+	MultiPayloadPct                                                                               int
 }
 
 func DefaultProfile() Profile {
